@@ -381,6 +381,18 @@ class K:
         return cls.__name__
 class K2(K):
     pass
+@utype.parse
+class Box:                       # the whole class decorated; an EMPTY box is falsy
+    def __init__(self):
+        self.items = []
+    def __len__(self):
+        return len(self.items)
+    def peek(self, n: int = 0, *more: int):
+        _seen.append(('box', len(self.items), n, more))
+        return n
+    def put(self, x: int):
+        self.items.append(x)
+        _seen.append(('put', x))
 """
 
 
@@ -403,6 +415,17 @@ def run_bound(case, ctx):
         ctx.count("declaration_rejected:" + type(e).__name__)
         return
     sig = ("bound", case["opts"], tuple(order), case["flip"])
+    box = ns["Box"]()
+    for step, exp in ((lambda: box.peek("3"), ('box', 0, 3, ())), (lambda: box.put("4"), ('put', 4)), (lambda: box.peek(n="5"), ('box', 1, 5, ())),
+                      (lambda: box.peek("1", "2"), ('box', 1, 1, (2,)))):
+        del seen[:]
+        o = run(step)
+        ctx.count("calls")
+        if not o.ok or not seen or seen[-1] != exp:
+            ctx.violation("C08/method-of-a-decorated-class/body-does-not-receive-pythons-binding",
+                          f"@utype.parse class Box (falsy while empty): body received {seen[-1:] or None}, Python binds {exp}; outcome {o!r}",
+                          {"source": BOUND_SRC, "expected": list(map(repr, exp))}, sig=sig)
+            return
     for obj, w in ws:
         del seen[:]
         o = run(lambda: w("5", b=7))
